@@ -155,6 +155,7 @@ type c20Env struct {
 
 	wsClient   c20Client
 	httpClient c20Client
+	slashClient c20Client // ws client configured with the push address spelled with a trailing slash
 	cutClient  c20Client // ws client whose uploads travel through cut
 	cut        *cutProxy
 	closers    []func()
@@ -351,6 +352,11 @@ func newC20Env() (*c20Env, error) {
 	if err != nil {
 		return nil, err
 	}
+	encSlash := httpio.ReaderParamEncoder("http://" + addr + "/rpc/streams/v0/push/")
+	c4, err := jsonrpc.NewMergeClient(context.Background(), "ws://"+addr+"/rpc/v0", "R", []interface{}{&e.slashClient}, nil, encSlash)
+	if err != nil {
+		return nil, err
+	}
 	e.cut, err = newCutProxy(addr)
 	if err != nil {
 		return nil, err
@@ -360,7 +366,7 @@ func newC20Env() (*c20Env, error) {
 	if err != nil {
 		return nil, err
 	}
-	e.closers = []func(){c1, c2, c3, func() { e.cut.ln.Close() }}
+	e.closers = []func(){c1, c2, c3, c4, func() { e.cut.ln.Close() }}
 	return e, nil
 }
 
@@ -431,6 +437,8 @@ type c20Case struct {
 	// Abandon (ws): before the calls, one reader-carrying call is given up by its caller (its context ends) while its
 	// upload is still on the way; the upload arrives after that. The calls proper must be unaffected.
 	Abandon bool `json:"abandon,omitempty"`
+	// PushSlash (ws): the client was configured with the push address spelled with a trailing slash
+	PushSlash bool `json:"push_slash,omitempty"`
 }
 
 func c20Payload(tok string, n int, seed uint64) []byte {
@@ -468,6 +476,9 @@ func (e *c20Env) run(c c20Case) *Violation {
 	}
 	if c.UploadCut > 0 {
 		return e.runUploadCut(c)
+	}
+	if c.PushSlash {
+		cl = e.slashClient
 	}
 	if c.Abandon {
 		e.evMu.Lock()
@@ -711,6 +722,10 @@ func c20NT(c c20Case) (bool, []string) {
 		cl = append(cl, "abandoned_call_then_late_upload")
 		nt = true
 	}
+	if c.PushSlash {
+		cl = append(cl, "push_address_with_trailing_slash")
+		nt = true
+	}
 	return nt, cl
 }
 
@@ -719,7 +734,7 @@ const c20Rule = "payload length from edge lengths {0,1,2,15..17,511..513,4095..4
 func TestC20(t *testing.T) {
 	rec := NewRec("C20", c20Rule)
 	defer rec.Finish(t)
-	rec.RequireClass("zero_length_reads", "abandoned_call_then_late_upload", "upload_cut", "pre_consumed", "reader_bytes", "reader_section", "reader_opaque", "order_aligned", "len_0", "len_gt_32k", "reads_past_eof", "pattern_closeafter", "pattern_closeearly", "pattern_bytewise", "order_request_first", "order_upload_first", "ncalls_3", "tr_ws", "tr_http")
+	rec.RequireClass("push_address_with_trailing_slash", "zero_length_reads", "abandoned_call_then_late_upload", "upload_cut", "pre_consumed", "reader_bytes", "reader_section", "reader_opaque", "order_aligned", "len_0", "len_gt_32k", "reads_past_eof", "pattern_closeafter", "pattern_closeearly", "pattern_bytewise", "order_request_first", "order_upload_first", "ncalls_3", "tr_ws", "tr_http")
 	env, err := newC20Env()
 	if err != nil {
 		t.Fatalf("env: %v", err)
@@ -779,6 +794,12 @@ func TestC20(t *testing.T) {
 					rec.Run(t, c, nt, cl, func() *Violation { return env.runConfirm(c) })
 				}
 			}
+		}
+		// the push address spelled with a trailing slash
+		for _, n := range []int{0, 11, 5000, 100000} {
+			c := c20Case{Transport: "ws", Order: "natural", PushSlash: true, Calls: []c20Call{{Len: n, Seed: uint64(n) + 9, Plan: ReadPlan{Pattern: "readall"}, Reader: []string{"", "opaque"}[n%2]}}}
+			nt, cl := c20NT(c)
+			rec.Run(t, c, nt, cl, func() *Violation { return env.runConfirm(c) })
 		}
 		// a call abandoned by its caller before its upload arrived, then ordinary calls
 		for _, tr := range []string{"ws", "http"} {
